@@ -63,7 +63,7 @@ def parse_meta_text(text):
         return None
 
 
-def abstract_events(events):
+def abstract_events(events, failure_propagated=True):
     """Concrete injector events (in log order) -> {key: [(op, outcome, info)]} and the list of keys in order
     of first appearance.  `info` = {"k": concrete index, "thread":..., "worker": bool, "sid": ...} of the
     concrete event that completed (or failed) the abstract operation."""
@@ -78,6 +78,13 @@ def abstract_events(events):
         per_key[key].append((op, outcome, {"k": ev.get("k"), "thread": ev.get("thread"),
                                            "worker": bool(ev.get("in_save_file")) and str(ev.get("thread", "")).startswith("ThreadPoolExecutor"),
                                            "sid": ev.get("sid"), "fault": ev.get("fault")}))
+        # an injected OSError in one saver kills the whole processing: the savers of the other data keys are
+        # told so (kill_spies / MailboxKilled) -- for their automata that is "processing failed upstream"
+        if failure_propagated and str(ev.get("fault") or "").startswith("raise"):
+            for other in order:
+                if other != key:
+                    per_key[other].append((("upexc",), "done", {"k": ev.get("k"), "thread": ev.get("thread"), "worker": False,
+                                                                "sid": None, "fault": None, "derived": True}))
 
     for ev in events:
         kind = ev["kind"]
